@@ -109,6 +109,24 @@ def check_commit_routine(prog: Program, rep: Report) -> None:
             okv = any(self_attr(n) == roles.change_dict for n in ast.walk(RC.res(value))) and "copy" in norm(value)
             rep.ob("R12.2-rest-to-moving-velocity", okv, sloc, stmt,
                    "its velocity must be (a copy of) the registered change")
+    # "absent exactly when none moves": the induced velocity is accumulated incrementally (+= per change), so what is left when the
+    # last member stops is a rounding residue, not 0.0 -- the test that clears the velocity must be a tolerance test on the magnitudes
+    for g_ in [n for n in ast.walk(cs) if isinstance(n, ast.If)]:
+        clears = any(isinstance(a, ast.Assign) and isinstance(a.value, ast.Constant) and a.value.value is None
+                     and any(isinstance(t, ast.Attribute) and t.attr == "velocity" for t in a.targets) for a in g_.body)
+        if not clears or not any(isinstance(x, ast.Attribute) and x.attr == "velocity" for x in ast.walk(g_.test)):
+            continue
+        t_ = g_.test
+        tolerant = any(isinstance(c_, ast.Compare) and len(c_.ops) == 1 and isinstance(c_.ops[0], (ast.Lt, ast.LtE, ast.Gt, ast.GtE))
+                       and any(isinstance(x, ast.Call) and norm(x.func) in ("abs", "math.fabs", "fabs") for x in ast.walk(c_))
+                       and any(isinstance(x, ast.Constant) and isinstance(x.value, float) and x.value > 0.0 for x in ast.walk(c_))
+                       for c_ in ast.walk(t_))
+        exact = any((isinstance(c_, ast.Compare) and any(isinstance(o_, (ast.Eq, ast.NotEq)) for o_ in c_.ops)) or
+                    (isinstance(c_, ast.Call) and norm(c_.func) in ("any", "all") and not any(isinstance(y, ast.Compare) for y in ast.walk(c_)))
+                    for c_ in ast.walk(t_))
+        rep.ob("R12.2-rest-test-tolerant", True if tolerant else (False if exact else None), Loc(file, g_.lineno, f"{base.name}.{cs.name}"), t_,
+               "the composite object is set to rest by an exact test on its accumulated velocity: the incremental sums leave a residue "
+               "of the order of 1e-17, so the object keeps a velocity (and a time stamp) although none of its members moves")
     rec = [n for n in ast.walk(cs) if isinstance(n, ast.Call) and isinstance(n.func, ast.Attribute)
            and n.func.attr == cs.name]
     loops = [n for n in ast.walk(cs) if isinstance(n, ast.For) and "children" in norm(n.iter)]
@@ -236,9 +254,16 @@ def analyse(src: Source) -> List[Report]:
     # in-place writes of a handler (time stamps of moving members) reach composite objects that were not committed
     from .c13 import check_extraction_copies
     check_extraction_copies(prog, rep)
+    # a candidate that survives an event which changed the motion of its units commits a stale (partial) composite object over the
+    # current one: the stale-candidate reachability of every shipped configuration (rule family shared with C08)
+    from ..config_graph import ConfigGraph
+    from ..inifront import load_all
+    cache_: Dict[str, HandlerFacts] = {}
+    for cfg in load_all(prog):
+        ConfigGraph(prog, cfg, cache_).explore(rep, ("C08",))
     # R12.3 also inside the commit routine and everywhere else in the package
     for mi, ci, fn in prog.functions():
-        if ci is None or not mi.file.startswith("jellyfysh/event_handler/"):
+        if not mi.file.startswith("jellyfysh/event_handler/"):
             continue
         parents = None
         for stmt, field, recv, elementwise, value in stores(fn):
@@ -254,7 +279,7 @@ def analyse(src: Source) -> List[Report]:
                 ok = block is not None and any(
                     isinstance(s, ast.Assign) and isinstance(s.value, ast.Constant) and s.value.value is None
                     and any(norm(t) == f"{norm(recv)}.{other}" for t in s.targets) for s in block)
-                rep.ob("R12.3-cowrite-static", ok, Loc(mi.file, stmt.lineno, f"{ci.name}.{fn.name}"), stmt,
+                rep.ob("R12.3-cowrite-static", ok, Loc(mi.file, stmt.lineno, f"{ci.name + '.' if ci else ''}{fn.name}"), stmt,
                        f"`{norm(recv)}.{field} = None` without `{norm(recv)}.{other} = None` in the same block: a unit is at "
                        f"rest exactly when both are absent")
     # R12.4 mode switcher exhaustiveness
@@ -276,13 +301,16 @@ def analyse(src: Source) -> List[Report]:
            "every aim mode needs exactly one out-state routine")
     check_creators(prog, rep)
     rep.expect_min("R12.5-root-is-centre", 2)
-    rep.expect_min("R12.1-commit-before-return", 12)
-    rep.expect_min("R12.1-register-before-commit", 10)
-    rep.expect_min("R12.1-register-same-cnode", 15)
-    rep.expect_min("R12.3-cowrite", 15)
-    rep.expect_min("R12.3-cowrite-static", 8)
+    rep.expect_min("R12.1-commit-before-return", 4)
+    rep.expect_min("R12.1-register-before-commit", 4)
+    rep.expect_min("R12.1-register-same-cnode", 4)    # 15 on the pinned tree; the sites shrink when handlers share helper routines
+    rep.expect_min("R12.3-cowrite", 4)
+    rep.expect_min("R12.3-cowrite-static", 2)     # 8 on the pinned tree; fewer when the clearing of a unit is one shared routine
     rep.expect_min("R12.2-slice-before-inplace", 1)
     rep.expect_min("R12.4-mode-dispatch", 2)
+    # a composite object stays consistent only if every unit of an out-state is written back: the insertion rule of C13
+    from .c13 import check_insert_complete
+    check_insert_complete(prog, rep)
     return [rep]
 
 
@@ -337,4 +365,8 @@ TWINS = [
          "        self._register_velocity_change_leaf_cnode(target_cnode, active_unit.velocity)\n"),
     Edit("commit: membership without keys()", AB,
          "if unit.identifier in self._non_leaf_velocity_changes.keys():", "if unit.identifier in self._non_leaf_velocity_changes:"),
+]
+MUTANTS += [
+    Edit("composite object set to rest by an exact zero test", AB, "if all(abs(component) < 1.0e-13 for component in unit.velocity):",
+         "if not any(unit.velocity):", "R12.2"),
 ]
